@@ -2,37 +2,17 @@
 
 package rtmp
 
-import "time"
-
 // Helper definitions of internal/protocols/rtmp and the shapes their callers use:
 //
 //	multiplyAndDivide (to_stream.go)    only through durationToTimestamp                            ns->ticks
 //	durationToTimestamp(d, clockRate)   to_stream.go, 11 sites (clockRate = format.ClockRate() / FLAC sample rate)  ns->ticks
 //	multiplyAndDivide2 (from_stream.go) only through timestampToDuration                            ticks->ns
 //	timestampToDuration(t, clockRate)   from_stream.go, 15 sites (clockRate = origFormat.ClockRate())  ticks->ns
+//
+// Each helper registers itself from its own file (c24_h_*_test.go), so that a tree in which a helper was
+// removed or renamed still lets the driver build the other helpers of the package (optional harness files).
+var c24Registry []c24Helper
+
 func c24Helpers() (string, []c24Helper) {
-	return "internal/protocols/rtmp", []c24Helper{
-		{
-			name:   "rtmp.multiplyAndDivide",
-			fn:     multiplyAndDivide,
-			shapes: []c24Shape{c24NsToTicks},
-		},
-		{
-			name:   "rtmp.durationToTimestamp",
-			fn:     func(v, m, _ int64) int64 { return durationToTimestamp(time.Duration(v), int(m)) },
-			shapes: []c24Shape{c24NsToTicks},
-		},
-		{
-			name: "rtmp.multiplyAndDivide2",
-			fn: func(v, m, d int64) int64 {
-				return int64(multiplyAndDivide2(time.Duration(v), time.Duration(m), time.Duration(d)))
-			},
-			shapes: []c24Shape{c24TicksToNs},
-		},
-		{
-			name:   "rtmp.timestampToDuration",
-			fn:     func(v, _, d int64) int64 { return int64(timestampToDuration(v, int(d))) },
-			shapes: []c24Shape{c24TicksToNs},
-		},
-	}
+	return "internal/protocols/rtmp", c24Registry
 }
